@@ -8,26 +8,44 @@ import (
 )
 
 func validateMaps(env *Environment, errorSink *validation.ErrorSink) *Environment {
-	Visit(env, func(self Visitor, node Node) {
-		// maps can be nested in the key or value type of a map
-		defer self.VisitChildren(node)
+	// the key type of a map in a generic definition may only be known once the definition is given its type arguments
+	checkedInstances := make(map[TypeDefinition]bool)
 
-		m, ok := node.(*Map)
-		if !ok {
-			return
-		}
+	var check func(root Node, reference Node)
+	check = func(root Node, reference Node) {
+		Visit(root, func(self Visitor, node Node) {
+			// maps can be nested in the key or value type of a map
+			defer self.VisitChildren(node)
 
-		t := GetUnderlyingType(m.KeyType)
-		if st, ok := t.(*SimpleType); ok {
-			switch st.ResolvedDefinition.(type) {
-			case nil, PrimitiveDefinition, *GenericTypeParameter:
-				// unresolved (already reported), primitive, or only known once the generic type is used
-				return
+			switch t := node.(type) {
+			case *SimpleType:
+				if len(t.TypeArguments) > 0 && t.ResolvedDefinition != nil && !checkedInstances[t.ResolvedDefinition] {
+					checkedInstances[t.ResolvedDefinition] = true
+					at := reference
+					if at == nil {
+						at = t
+					}
+					check(t.ResolvedDefinition, at)
+				}
+			case *Map:
+				keyType := GetUnderlyingType(t.KeyType)
+				if st, ok := keyType.(*SimpleType); ok {
+					switch st.ResolvedDefinition.(type) {
+					case nil, PrimitiveDefinition, *GenericTypeParameter:
+						// unresolved (already reported), primitive, or only known once the generic type is used
+						return
+					}
+				}
+
+				if reference != nil {
+					errorSink.Add(validationError(reference, "map key type must be a primitive scalar type (the key type results from the type arguments given here)"))
+					return
+				}
+				errorSink.Add(validationError(t, "map key type must be a primitive scalar type"))
 			}
-		}
+		})
+	}
 
-		errorSink.Add(validationError(m, "map key type must be a primitive scalar type"))
-	})
-
+	check(env, nil)
 	return env
 }
